@@ -1,99 +1,494 @@
-"""C12 — what the copy model assumes about the live source of `Tag.copy_self`, `Tag.__init__`,
-`BeautifulSoup.copy_self`, read from the running bs4 (inspect + ast), never copied by hand.
+"""C12 — what the copy model assumes about `Tag.copy_self`, `BeautifulSoup.copy_self`, `__getstate__`, `__setstate__`, computed from
+the LIVE BEHAVIOUR of the running bs4 on probe objects (spy subclasses recording the bound arguments of `__init__` / `decode` /
+`reset` / `_feed`, sentinel values told apart by identity) — never from source text, never copied by hand. Renaming a local,
+reordering independent statements, extracting a helper, unrolling a loop do not change any of these facts.
 
-Gen/Copy.lean:
-  tagInitParams        parameters of Tag.__init__ (without self), in order
-  copySelfArgs         (parameter of Tag.__init__, source text of the argument), sorted by parameter, for every argument of the
-                       `type(self)(...)` call in Tag.copy_self, positional ones resolved against the signature
-  copySelfAfter        source text (ast.unparse) of the statements of Tag.copy_self after the constructor call
-  copySelfSetattrs     the attribute names of the `for attr in (...): setattr(clone, attr, getattr(self, attr))` loop
-  soupCopySelfArgs     source text of the arguments of the `type(self)(...)` call in BeautifulSoup.copy_self
-  soupCopySelfAssigns  attributes assigned on the clone afterwards (`clone.X = self.X`)
-  getstateMarkup       top-level statements of BeautifulSoup.__getstate__ that mention `markup`
-  setstateCalls        top-level call statements of BeautifulSoup.__setstate__
+Gen/Copy.lean (namespace BS.Gen.Copy):
+  tagInitParams        parameters of Tag.__init__ (without self), in signature order
+  copySelfCtor         for EVERY parameter of Tag.__init__: what the constructor called by Tag.copy_self received for it —
+                       `own` (the original's own value, by identity / equality, on two probes with complementary values), `none`,
+                       `absent` (not passed), `other` (anything else, e.g. another parameter's value), `raised`
+  copySelfClone        for every parameter: what the clone holds in the corresponding attribute — `same` / `none` / `rebuilt`
+                       (attrs: see the facts) / `noattr` (builder: a Tag keeps none) / `other`
+  copySelfFacts        named facts observed on the clone (attrs dict: same class, fresh object, key order kept, list values fresh and
+                       of the same class with the same items — also a plain `list` —, other values identical objects, an empty dict of
+                       a user class stays of that class; can_be_empty_element / hidden carried whatever their value; no parent, no
+                       contents, no links; class of the clone; one constructor call; the original untouched)
+  soupCopySelfCtor     for every parameter of BeautifulSoup.__init__: `empty` ('' markup) / `own` (the original's builder object) /
+                       `none` / `absent` / `other`
+  soupCopySelfFacts    named facts about the clone of a BeautifulSoup (same builder object, original_encoding carried, empty, root name ...)
+  getstateDecodeCalls  how often __getstate__ called self.decode
+  getstateDecode       for every parameter of BeautifulSoup.decode: `default` (not passed, or the default value) / `none` / `other`
+  getstateFacts        named facts about the state dict (markup IS the value decode returned, even with a left-over `.markup`; contents
+                       empty; the four links None or absent; _most_recent_element absent; no tree object but the document itself reachable; builder replaced by
+                       its class exactly when not picklable; every other key kept; the object itself untouched)
+  setstateCalls        the order in which __setstate__ called `reset` and `_feed` (each entry one call)
+  setstateFacts        named facts (builder class -> instance, None -> HTMLParserTreeBuilder, an instance — also a falsy one — kept;
+                       builder.soup is the object; other fields kept; the tree is the parse of state['markup']; `.markup` keeps it)
   rootTagName          BeautifulSoup.ROOT_TAG_NAME
 """
-import ast
 import inspect
-import textwrap
+import warnings
 
 from gen_tables import lean_str, HEADER
 
 
-def _fn_ast(fn):
-    return ast.parse(textwrap.dedent(inspect.getsource(fn))).body[0]
+# ------------------------------------------------------------------------------------------------------------------
+# Tag.copy_self
+
+# parameter of Tag.__init__ -> attribute of a Tag that holds (the resolved form of) it
+_TAG_ATTR = {"parser": "parser_class", "builder": None, "name": "name", "namespace": "namespace", "prefix": "prefix", "attrs": "attrs",
+             "parent": "parent", "previous": "previous_element", "is_xml": "_is_xml", "sourceline": "sourceline",
+             "sourcepos": "sourcepos", "can_be_empty_element": "can_be_empty_element",
+             "cdata_list_attributes": "cdata_list_attributes", "preserve_whitespace_tags": "preserve_whitespace_tags",
+             "interesting_string_types": "interesting_string_types", "namespaces": "_namespaces"}
+# what the clone stores the parameter in (`_is_xml` is a property; the constructor stores `known_xml`)
+_CLONE_ATTR = dict(_TAG_ATTR, is_xml="known_xml")
 
 
-def _ctor_call(fn_ast):
-    """the `type(self)(...)` call"""
-    for n in ast.walk(fn_ast):
-        if isinstance(n, ast.Call) and isinstance(n.func, ast.Call) and isinstance(n.func.func, ast.Name) \
-                and n.func.func.id == "type":
-            return n
-    raise RuntimeError("no type(self)(...) call found")
+def _same(a, b):
+    """identity, or equality of immutable scalars of the same type (str, int, bool are not told apart by identity)"""
+    if a is b:
+        return True
+    return type(a) is type(b) and isinstance(a, (str, int, bool)) and a == b
+
+
+def _probe_tag_once(flip):
+    """one original (a spy subclass of Tag inside a small tree), its copy_self(): (ctor kinds, clone kinds, facts)"""
+    from bs4.element import Tag, NavigableString, PageElement
+    from bs4 import BeautifulSoup
+    sig = inspect.signature(Tag.__init__)
+    params = [p for p in sig.parameters if p != "self"]
+    calls = []
+
+    class SpyTag(Tag):
+        def __init__(self, *a, **kw):
+            calls.append(sig.bind(self, *a, **kw).arguments)
+            super().__init__(*a, **kw)
+
+    class UserDict(dict):
+        pass
+
+    class UserList(list):
+        pass
+
+    class UserStr(str):
+        pass
+
+    cbe = bool(flip)
+    xml = not flip
+    sent = dict(name="nm" + str(flip), namespace="urn:ns" + str(flip), prefix="pf" + str(flip), sourceline=101 + flip, sourcepos=202 + flip,
+                can_be_empty_element=cbe, cdata_list_attributes={"*": {"k"}}, preserve_whitespace_tags={"pw"},
+                interesting_string_types={NavigableString}, namespaces={"p": "urn:p"})
+    orig = SpyTag(None, None, **sent)
+    # things the constructor does not take, or derives: set afterwards, non-default
+    orig.parser_class = BeautifulSoup
+    orig.hidden = True
+    orig.can_be_empty_element = cbe
+    vlist, plist, ustr = UserList(["a", "b"]), ["x", "y"], UserStr("u")
+    values = [("class", vlist), ("id", "i"), ("n", 2), ("z", None), ("rel", plist), ("u", ustr), ("t", True), ("f", 1.5)]
+    adict = UserDict()
+    for k, v in values:
+        dict.__setitem__(adict, k, v)
+    orig.attrs = adict
+    # a context: a parent that alone knows the flavour, siblings on both sides, children
+    par = Tag(name="par", is_xml=xml)
+    left, right, kid = Tag(name="l"), Tag(name="r"), Tag(name="k")
+    par.append(left)
+    par.append(orig)
+    par.append(right)
+    orig.append(kid)
+    orig.append(NavigableString("text"))
+    orig.known_xml = None
+    def snap():
+        return ([id(x) for x in (orig.parent, orig.next_sibling, orig.previous_sibling, orig.next_element, orig.previous_element)],
+                [id(x) for x in orig.contents], [(k, id(v)) for k, v in adict.items()], id(orig.attrs))
+
+    before = snap()
+    del calls[:]
+    clone = orig.copy_self()
+
+    ctor = {}
+    if len(calls) >= 1:
+        got = calls[0]
+        for p in params:
+            if p not in got:
+                ctor[p] = "absent"
+                continue
+            v = got[p]
+            attr = _TAG_ATTR.get(p)
+            own = getattr(orig, attr) if attr else None
+            if p == "parser":
+                ctor[p] = "none" if v is None else ("own" if type(v) is orig.parser_class else "other")
+            elif v is None:
+                ctor[p] = "none"
+            elif attr and _same(v, own):
+                ctor[p] = "own"
+            else:
+                ctor[p] = "other"
+    else:
+        ctor = {p: "absent" for p in params}
+
+    held = {}
+    for p in params:
+        attr = _CLONE_ATTR.get(p)
+        if attr is None:
+            held[p] = "noattr" if "builder" not in vars(clone) else "other"
+            continue
+        c = getattr(clone, attr, PageElement)     # PageElement: a value no attribute holds
+        own = getattr(orig, _TAG_ATTR[p])
+        if p == "attrs":
+            held[p] = "rebuilt" if (c is not own and isinstance(c, dict) and c == own) else ("same" if c is own else "other")
+        elif c is None and own is not None:
+            held[p] = "none"
+        elif _same(c, own):
+            held[p] = "same"
+        else:
+            held[p] = "other"
+
+    ca = clone.attrs
+    items = list(ca.items()) if isinstance(ca, dict) else []
+    lists = [(k, v) for k, v in values if isinstance(v, list)]
+    scalars = [(k, v) for k, v in values if not isinstance(v, list)]
+    cd = dict(items)
+    facts = {
+        "clone_is_new_object_of_same_class": clone is not orig and type(clone) is SpyTag,
+        "one_constructor_call": len(calls) == 1,
+        "attrs_same_class": type(ca) is UserDict,
+        "attrs_fresh_object": ca is not adict,
+        "attrs_keys_in_order": [k for k, _ in items] == [k for k, _ in values],
+        "list_values_fresh": all(k in cd and cd[k] is not v for k, v in lists),
+        "list_values_same_class_same_items": all(k in cd and type(cd[k]) is type(v) and list(cd[k]) == list(v) for k, v in lists),
+        "other_values_identical": all(k in cd and cd[k] is v for k, v in scalars),
+        "can_be_empty_element_carried": clone.can_be_empty_element is cbe,
+        "hidden_carried": clone.hidden is True,
+        "no_parent": clone.parent is None,
+        "no_contents": len(clone.contents) == 0 and clone.contents is not orig.contents,
+        "no_links": all(getattr(clone, a, 0) is None for a in ("next_element", "next_sibling", "previous_element", "previous_sibling")),
+        "original_untouched": before == snap() and orig.attrs is adict
+                              and [(k, id(v)) for k, v in values] == [(k, id(v)) for k, v in adict.items()],
+    }
+    # the defaults: nothing is carried by accident of the probe's values
+    plain = SpyTag(None, None, "q")
+    plain.attrs = UserDict()
+    c2 = plain.copy_self()
+    facts["empty_attrs_same_class_fresh"] = type(c2.attrs) is UserDict and c2.attrs is not plain.attrs and len(c2.attrs) == 0
+    facts["hidden_false_carried"] = c2.hidden is False
+    plain.can_be_empty_element = None
+    facts["can_be_empty_element_none_carried"] = plain.copy_self().can_be_empty_element is None
+    return ctor, held, facts
+
+
+def _merge(a, b, bad):
+    return {k: (a[k] if a.get(k) == b.get(k) else bad) for k in a}
+
+
+def probe_tag_copy_self():
+    from bs4.element import Tag
+    params = [p for p in inspect.signature(Tag.__init__).parameters if p != "self"]
+    try:
+        c0, h0, f0 = _probe_tag_once(0)
+        c1, h1, f1 = _probe_tag_once(1)
+        ctor, held = _merge(c0, c1, "other"), _merge(h0, h1, "other")
+        facts = {k: bool(f0[k] and f1.get(k)) for k in f0}
+        raised = None
+    except Exception as ex:       # the probe objects could not even be copied: every fact is lost
+        raised = f"{type(ex).__name__}: {ex}"
+        ctor, held = {p: "raised" for p in params}, {p: "raised" for p in params}
+        facts = {"probe_ran": False}
+    return params, [(p, ctor.get(p, "absent")) for p in params], [(p, held.get(p, "other")) for p in params], sorted(facts.items()), raised
+
+
+# ------------------------------------------------------------------------------------------------------------------
+# BeautifulSoup.copy_self
+
+def probe_soup_copy_self():
+    from bs4 import BeautifulSoup
+    from bs4.builder import HTMLParserTreeBuilder
+    sig = inspect.signature(BeautifulSoup.__init__)
+    params = [p for p in sig.parameters if p != "self"]
+    calls = []
+
+    class SpySoup(BeautifulSoup):
+        def __init__(self, *a, **kw):
+            calls.append(sig.bind(self, *a, **kw).arguments)
+            super().__init__(*a, **kw)
+
+    try:
+        builder = HTMLParserTreeBuilder()
+        orig = SpySoup("<p class='a'>x</p><!--c-->", builder=builder)
+        orig.original_encoding = "x-sentinel-encoding"
+        rendering = orig.decode()
+        del calls[:]
+        clone = orig.copy_self()
+        ctor = {}
+        got = calls[0] if calls else {}
+        for p in params:
+            if p not in got:
+                ctor[p] = "absent"
+                continue
+            v = got[p]
+            kind = sig.parameters[p].kind
+            if kind in (inspect.Parameter.VAR_KEYWORD, inspect.Parameter.VAR_POSITIONAL):
+                ctor[p] = "absent" if not v else "other"
+            elif v is None:
+                ctor[p] = "none"
+            elif p == "markup" and isinstance(v, (str, bytes)) and len(v) == 0:
+                ctor[p] = "empty"
+            elif p == "builder" and v is builder:
+                ctor[p] = "own"
+            else:
+                ctor[p] = "other"
+        facts = {
+            "clone_is_new_object_of_same_class": clone is not orig and type(clone) is SpySoup,
+            "one_constructor_call": len(calls) == 1,
+            "same_builder_object": clone.builder is builder and orig.builder is builder,
+            "original_encoding_carried": clone.original_encoding == "x-sentinel-encoding",
+            "clone_is_empty": len(clone.contents) == 0 and clone.decode() == "",
+            "clone_has_root_name": clone.name == BeautifulSoup.ROOT_TAG_NAME and clone.hidden is True,
+            "no_parent_no_siblings": clone.parent is None and clone.next_sibling is None and clone.previous_sibling is None,
+            "original_untouched": orig.decode() == rendering and orig.original_encoding == "x-sentinel-encoding",
+        }
+        raised = None
+    except Exception as ex:
+        raised = f"{type(ex).__name__}: {ex}"
+        ctor = {p: "raised" for p in params}
+        facts = {"probe_ran": False}
+    return [(p, ctor.get(p, "absent")) for p in params], sorted(facts.items()), raised
+
+
+# ------------------------------------------------------------------------------------------------------------------
+# BeautifulSoup.__getstate__
+
+def _tree_objects(v, depth=3):
+    """PageElements reachable from a value of the state dict through plain containers"""
+    from bs4.element import PageElement
+    if isinstance(v, PageElement):
+        return [v]
+    if depth and isinstance(v, (list, tuple, set, frozenset)):
+        return [x for i in v for x in _tree_objects(i, depth - 1)]
+    if depth and isinstance(v, dict):
+        return [x for k, i in v.items() for x in _tree_objects(k, depth - 1) + _tree_objects(i, depth - 1)]
+    return []
+
+
+_LINKS = ("next_element", "next_sibling", "previous_element", "previous_sibling")
+
+
+def probe_getstate():
+    from bs4 import BeautifulSoup
+    from bs4.element import Tag
+    from bs4.builder import HTMLParserTreeBuilder
+    sig = inspect.signature(BeautifulSoup.decode)
+    params = [p for p in sig.parameters if p != "self"]
+    rec = {"armed": False, "calls": [], "returned": []}
+
+    class Markup(str):
+        pass
+
+    class SpySoup(BeautifulSoup):
+        def decode(self, *a, **kw):
+            r = super().decode(*a, **kw)
+            if rec["armed"]:
+                r = Markup(r)
+                rec["calls"].append(sig.bind(self, *a, **kw).arguments)
+                rec["returned"].append(r)
+            return r
+
+    def getstate(soup):
+        rec["armed"], rec["calls"], rec["returned"] = True, [], []
+        try:
+            return soup.__getstate__()
+        finally:
+            rec["armed"] = False
+
+    try:
+        # probe 1: a parsed document that still holds a left-over markup, came in as bytes of some encoding, is linked into a tree on
+        # every side, with a builder that cannot be pickled
+        b1 = HTMLParserTreeBuilder()
+        s1 = SpySoup("<p class='a b'>one<b>two</b></p><!--c-->", builder=b1)
+        s1.markup = "<stale>left over</stale>"
+        s1.original_encoding = "latin-1"
+        s1.declared_html_encoding = "latin-1"
+        other = Tag(name="elsewhere")
+        other.previous_element = s1._last_descendant()       # consistent links: rendering s1 still works
+        s1.next_sibling = s1.previous_sibling = s1.previous_element = other
+        s1._most_recent_element = s1.p
+        b1.picklable = False
+        s1.user_field = ["kept", "as", "is"]
+        d_before = dict(s1.__dict__)
+        contents_before = list(s1.contents)
+        st = getstate(s1)
+        calls, returned = list(rec["calls"]), list(rec["returned"])
+        dec = {}
+        got = calls[0] if calls else {}
+        for p in params:
+            par = sig.parameters[p]
+            if p not in got:
+                dec[p] = "default"
+            elif par.kind in (inspect.Parameter.VAR_KEYWORD, inspect.Parameter.VAR_POSITIONAL):
+                dec[p] = "default" if not got[p] else "other"
+            elif par.default is not inspect.Parameter.empty and (got[p] is par.default or (got[p] == par.default and
+                                                                                         type(got[p]) is type(par.default))):
+                dec[p] = "default"
+            elif got[p] is None:
+                dec[p] = "none"
+            else:
+                dec[p] = "other"
+        special = {"contents", "markup", "builder", "_most_recent_element", *_LINKS}
+        facts = {
+            "state_is_new_dict": isinstance(st, dict) and st is not s1.__dict__,
+            "markup_is_what_decode_returned": len(returned) == 1 and st.get("markup") is returned[0],
+            "markup_is_current_tree_not_leftover": st.get("markup") == "<p class=\"a b\">one<b>two</b></p><!--c-->",
+            "contents_empty": st.get("contents") == [] and st.get("contents") is not s1.contents,
+            "links_none_or_absent": all(st.get(k) is None for k in _LINKS),
+            "most_recent_element_absent": "_most_recent_element" not in st,
+            "no_tree_object_reachable": not [x for k, v in st.items() if k != "builder" for x in _tree_objects(v) if x is not s1],
+            "unpicklable_builder_replaced_by_class": st.get("builder") is HTMLParserTreeBuilder,
+            "other_keys_kept_identical": all(k in st and st[k] is v for k, v in d_before.items() if k not in special)
+                                         and set(st) - set(d_before) <= {"markup", "contents"},
+            "object_untouched": s1.contents == contents_before and all(a is b for a, b in zip(s1.contents, contents_before))
+                                and set(s1.__dict__) == set(d_before) and all(s1.__dict__[k] is v for k, v in d_before.items()),
+        }
+        # probe 2: picklable builder -> the object itself travels
+        b2 = HTMLParserTreeBuilder()
+        b2.picklable = True
+        s2 = SpySoup("<a>x</a>", builder=b2)
+        facts["picklable_builder_kept"] = getstate(s2).get("builder") is b2
+        # probe 3: no builder
+        s3 = SpySoup("<a>x</a>", builder=HTMLParserTreeBuilder())
+        s3.builder = None
+        st3 = getstate(s3)
+        facts["builder_none_kept"] = "builder" in st3 and st3["builder"] is None
+        # probe 4: an empty document whose left-over markup is all there is to lose
+        s4 = SpySoup("", builder=HTMLParserTreeBuilder())
+        s4.markup = "<stale/>"
+        facts["empty_tree_gives_empty_markup"] = getstate(s4).get("markup") == ""
+        raised = None
+        ncalls = len(calls)
+    except Exception as ex:
+        raised = f"{type(ex).__name__}: {ex}"
+        dec = {p: "raised" for p in params}
+        facts = {"probe_ran": False}
+        ncalls = 0
+    return ncalls, [(p, dec.get(p, "default")) for p in params], sorted(facts.items()), raised
+
+
+# ------------------------------------------------------------------------------------------------------------------
+# BeautifulSoup.__setstate__
+
+def probe_setstate():
+    from bs4 import BeautifulSoup
+    from bs4.builder import HTMLParserTreeBuilder
+    log = []
+
+    class SpySoup(BeautifulSoup):
+        def reset(self, *a, **kw):
+            log.append("reset")
+            return super().reset(*a, **kw)
+
+        def _feed(self, *a, **kw):
+            log.append("_feed")
+            return super()._feed(*a, **kw)
+
+    class FalsyBuilder(HTMLParserTreeBuilder):
+        def __bool__(self):
+            return False
+
+        def __len__(self):
+            return 0
+
+    markup = '<p class="a b">one<b>two</b></p><!--c-->'
+
+    def state(builder):
+        src = BeautifulSoup(markup, builder=HTMLParserTreeBuilder())
+        d = src.__getstate__()
+        d["builder"] = builder
+        d["markup"] = markup
+        d["original_encoding"] = "x-sentinel-encoding"
+        d["user_field"] = sentinel
+        return d
+
+    def restore(builder):
+        new = SpySoup.__new__(SpySoup)
+        del log[:]
+        new.__setstate__(state(builder))
+        return new, list(log)
+
+    sentinel = ["kept"]
+    try:
+        n1, calls = restore(HTMLParserTreeBuilder)
+        inst = HTMLParserTreeBuilder()
+        n2, calls2 = restore(inst)
+        n3, calls3 = restore(None)
+        falsy = FalsyBuilder()
+        n4, calls4 = restore(falsy)
+        ref = BeautifulSoup(markup, builder=HTMLParserTreeBuilder()).decode()
+        facts = {
+            "same_calls_for_every_builder_form": calls == calls2 == calls3 == calls4,
+            "builder_class_instantiated": type(n1.builder) is HTMLParserTreeBuilder,
+            "builder_instance_kept": n2.builder is inst,
+            "builder_none_gives_htmlparser": type(n3.builder) is HTMLParserTreeBuilder,
+            "falsy_builder_object_kept": n4.builder is falsy,
+            "builder_soup_is_the_object": all(getattr(n.builder, "soup", None) is n for n in (n1, n2, n3, n4)),
+            "other_fields_kept": all(n.original_encoding == "x-sentinel-encoding" and n.user_field is sentinel for n in (n1, n2, n3, n4)),
+            "tree_is_parse_of_state_markup": all(n.decode() == ref for n in (n1, n2, n3, n4)),
+            "markup_attribute_keeps_state_markup": all(n.markup == markup for n in (n1, n2, n3, n4)),
+        }
+        raised = None
+    except Exception as ex:
+        raised = f"{type(ex).__name__}: {ex}"
+        calls = ["raised"]
+        facts = {"probe_ran": False}
+    return calls, sorted(facts.items()), raised
+
+
+# ------------------------------------------------------------------------------------------------------------------
+
+def all_probes():
+    """every probe, as plain Python values (also used by harness/c12.py to name the probe a broken obligation came from)"""
+    with warnings.catch_warnings():
+        warnings.simplefilter("ignore")
+        params, ctor, held, facts, r1 = probe_tag_copy_self()
+        sctor, sfacts, r2 = probe_soup_copy_self()
+        ncalls, dec, gfacts, r3 = probe_getstate()
+        scalls, ssfacts, r4 = probe_setstate()
+    from bs4 import BeautifulSoup
+    return dict(tagInitParams=params, copySelfCtor=ctor, copySelfClone=held, copySelfFacts=facts, soupCopySelfCtor=sctor,
+                soupCopySelfFacts=sfacts, getstateDecodeCalls=ncalls, getstateDecode=dec, getstateFacts=gfacts, setstateCalls=scalls,
+                setstateFacts=ssfacts, rootTagName=BeautifulSoup.ROOT_TAG_NAME,
+                raised=dict(copy_self=r1, soup_copy_self=r2, getstate=r3, setstate=r4))
+
+
+def _pairs(name, doc, xs):
+    t = f"/-- {doc}: " + "; ".join(f"{p}={v}" for p, v in xs) + " -/\n"
+    return t + f"def {name} : List (BS.PStr × BS.PStr) := [" + ", ".join(f"({lean_str(p)}, {lean_str(v)})" for p, v in xs) + "]\n"
+
+
+def _facts(name, doc, xs):
+    t = f"/-- {doc}: " + "; ".join(f"{p}={'yes' if v else 'NO'}" for p, v in xs) + " -/\n"
+    return t + f"def {name} : List (BS.PStr × Bool) := [" + ", ".join(f"({lean_str(p)}, {'true' if v else 'false'})" for p, v in xs) + "]\n"
 
 
 def gen_copy():
-    from bs4.element import Tag
-    from bs4 import BeautifulSoup
-    params = [p for p in inspect.signature(Tag.__init__).parameters if p != "self"]
-    f = _fn_ast(Tag.copy_self)
-    call = _ctor_call(f)
-    args = []
-    for i, a in enumerate(call.args):
-        args.append((params[i], ast.unparse(a)))
-    for kw in call.keywords:
-        args.append((kw.arg, ast.unparse(kw.value)))
-    args.sort()          # by parameter name: positional/keyword style and order are not the model's business
-    setattrs = []
-    for n in ast.walk(f):
-        if isinstance(n, ast.For) and isinstance(n.iter, (ast.Tuple, ast.List)):
-            body_src = ast.unparse(n)
-            if "setattr(clone" in body_src and "getattr(self" in body_src:
-                setattrs += [e.value for e in n.iter.elts if isinstance(e, ast.Constant)]
-    setattrs.sort()
-    # what copy_self does to the clone after constructing it (comments and layout do not matter: ast.unparse)
-    after = []
-    seen_ctor = False
-    for st in f.body:
-        if isinstance(st, ast.Expr) and isinstance(st.value, ast.Constant):
-            continue    # docstring
-        if not seen_ctor:
-            seen_ctor = any(n is call for n in ast.walk(st))
-            continue
-        if isinstance(st, ast.Return):
-            continue
-        after.append(ast.unparse(st))
-    g = _fn_ast(BeautifulSoup.copy_self)
-    scall = _ctor_call(g)
-    sargs = [ast.unparse(a) for a in scall.args] + [f"{k.arg}={ast.unparse(k.value)}" for k in scall.keywords]
-    sassign = []
-    for n in ast.walk(g):
-        if isinstance(n, ast.Assign) and len(n.targets) == 1 and isinstance(n.targets[0], ast.Attribute) \
-                and isinstance(n.targets[0].value, ast.Name) and n.targets[0].value.id == "clone":
-            sassign.append((n.targets[0].attr, ast.unparse(n.value)))
-    gs = _fn_ast(BeautifulSoup.__getstate__)
-    gs_markup = [ast.unparse(st) for st in gs.body if "markup" in ast.unparse(st)]
-    ss = _fn_ast(BeautifulSoup.__setstate__)
-    ss_calls = [ast.unparse(st) for st in ss.body if isinstance(st, ast.Expr) and isinstance(st.value, ast.Call)]
+    r = all_probes()
     t = HEADER + "import BSModel.Base.PStr\nnamespace BS.Gen.Copy\n"
-    t += f"/-- {', '.join(params)} -/\n"
-    t += "def tagInitParams : List BS.PStr := [" + ", ".join(lean_str(p) for p in params) + "]\n"
-    t += "/-- " + "; ".join(f"{p}={v}" for p, v in args) + " -/\n"
-    t += "def copySelfArgs : List (BS.PStr × BS.PStr) := [" + ", ".join(f"({lean_str(p)}, {lean_str(v)})" for p, v in args) + "]\n"
-    t += f"/-- {', '.join(setattrs)} -/\n"
-    t += "def copySelfSetattrs : List BS.PStr := [" + ", ".join(lean_str(p) for p in setattrs) + "]\n"
-    t += "/-- the statements of Tag.copy_self between the constructor call and `return clone` -/\n"
-    t += "def copySelfAfter : List BS.PStr := [" + ", ".join(lean_str(p) for p in after) + "]\n"
-    t += "/-- " + "; ".join(sargs) + " -/\n"
-    t += "def soupCopySelfArgs : List BS.PStr := [" + ", ".join(lean_str(p) for p in sargs) + "]\n"
-    t += "/-- " + "; ".join(f"clone.{p}={v}" for p, v in sassign) + " -/\n"
-    t += "def soupCopySelfAssigns : List (BS.PStr × BS.PStr) := [" + ", ".join(f"({lean_str(p)}, {lean_str(v)})" for p, v in sassign) + "]\n"
-    t += "/-- top-level statements of BeautifulSoup.__getstate__ that mention `markup` -/\n"
-    t += "def getstateMarkup : List BS.PStr := [" + ", ".join(lean_str(p) for p in gs_markup) + "]\n"
-    t += "/-- top-level call statements of BeautifulSoup.__setstate__ -/\n"
-    t += "def setstateCalls : List BS.PStr := [" + ", ".join(lean_str(p) for p in ss_calls) + "]\n"
-    t += f"def rootTagName : BS.PStr := {lean_str(BeautifulSoup.ROOT_TAG_NAME)}\n"
+    t += f"/-- {', '.join(r['tagInitParams'])} -/\n"
+    t += "def tagInitParams : List BS.PStr := [" + ", ".join(lean_str(p) for p in r["tagInitParams"]) + "]\n"
+    t += _pairs("copySelfCtor", "what the constructor called by Tag.copy_self received, per parameter of Tag.__init__ (probe objects)",
+                r["copySelfCtor"])
+    t += _pairs("copySelfClone", "what the clone holds in the attribute of each parameter", r["copySelfClone"])
+    t += _facts("copySelfFacts", "observed on the clone of a probe tag", r["copySelfFacts"])
+    t += _pairs("soupCopySelfCtor", "what BeautifulSoup.__init__ received from BeautifulSoup.copy_self", r["soupCopySelfCtor"])
+    t += _facts("soupCopySelfFacts", "observed on the clone of a probe document", r["soupCopySelfFacts"])
+    t += "/-- calls of self.decode during __getstate__ -/\n"
+    t += f"def getstateDecodeCalls : Nat := {r['getstateDecodeCalls']}\n"
+    t += _pairs("getstateDecode", "arguments of that call, per parameter of BeautifulSoup.decode", r["getstateDecode"])
+    t += _facts("getstateFacts", "observed on the state dicts of probe documents", r["getstateFacts"])
+    t += "/-- calls of reset / _feed during __setstate__, in order: " + ", ".join(r["setstateCalls"]) + " -/\n"
+    t += "def setstateCalls : List BS.PStr := [" + ", ".join(lean_str(p) for p in r["setstateCalls"]) + "]\n"
+    t += _facts("setstateFacts", "observed on probe objects after __setstate__", r["setstateFacts"])
+    t += f"def rootTagName : BS.PStr := {lean_str(r['rootTagName'])}\n"
     t += "end BS.Gen.Copy\n"
     yield "Copy.lean", t
 
